@@ -30,8 +30,14 @@ def pick(rng, *choices):
     return choices[int(rng.integers(len(choices)))]
 
 
+MENU_E = [5e6, 2e7, 1e8, 1e9]
+
+
 def energy(rng, low: bool = False) -> float:
-    """log-uniform 5 MeV .. 20 GeV; `low` biases to a few MeV where beta < 1 matters"""
+    """log-uniform 5 MeV .. 20 GeV; `low` biases to a few MeV where beta < 1 matters; a quarter of the draws come from
+    a small menu (the energies at which "used before" elements were exercised, see WARM)"""
+    if not low and rng.random() < 0.25:
+        return float(MENU_E[int(rng.integers(len(MENU_E)))])
     if low or rng.random() < 0.25:
         return float(np.exp(rng.uniform(np.log(2e6), np.log(2e7))))
     return float(np.exp(rng.uniform(np.log(5e6), np.log(2e10))))
@@ -125,8 +131,96 @@ LINEAR_CLASSES = ["Drift", "Quadrupole", "Dipole", "RBend", "Solenoid", "Horizon
                   "VerticalCorrector", "Undulator", "Cavity", "Marker", "BPM", "Screen", "Aperture"]
 
 
+# ---------------------------------------------------------------------------------------------
+# "used before": hidden state.  When WARM is a numpy Generator, a fraction of the elements handed to the checks are
+# not freshly constructed: they are built with *other* parameter values, used (tracked with both beam types, asked for
+# their transfer map at two energies, split, cloned), and then re-tuned to the wanted values through the public
+# attributes.  A result that depends only on the current parameter values (C11) is the same either way, so every
+# correspondence and falsifier of every property doubles as a probe for stale caches / leftover state.
+# ---------------------------------------------------------------------------------------------
+WARM = None
+WARM_P = 0.3
+WARM_COUNT = {"warm": 0, "fresh": 0, "fallback": 0}
+# record key -> attribute (tensor attributes that the constructor merely stores)
+WARM_ATTRS = {
+    "Drift": {"L": "length"},
+    "Quadrupole": {"L": "length", "k1": "k1", "tilt": "tilt"},
+    "Solenoid": {"L": "length", "k": "k"},
+    "HorizontalCorrector": {"L": "length", "angle": "angle"},
+    "VerticalCorrector": {"L": "length", "angle": "angle"},
+    "Undulator": {"L": "length"},
+    "Cavity": {"L": "length", "V": "voltage", "phase": "phase", "freq": "frequency"},
+    "Dipole": {"L": "length", "angle": "angle", "k1": "k1", "tilt": "tilt", "e1": "dipole_e1", "e2": "dipole_e2",
+               "fint": "fringe_integral", "fintx": "fringe_integral_exit"},   # (gap_exit is derived from gap at construction)
+    "TransverseDeflectingCavity": {"L": "length", "V": "voltage", "phase": "phase", "freq": "frequency", "tilt": "tilt"},
+}
+
+
+def _warm_build(p: dict, dtype, name, extra):
+    rng = WARM
+    c = p["cls"]
+    attrs = WARM_ATTRS[c]
+    if any(not isinstance(p.get(k), float) for k in attrs):
+        return None
+    # earlier settings: a random non-empty subset of the parameters differs from the wanted values (a cache keyed on
+    # the others would hit)
+    vary = [k for k in attrs if rng.random() < 0.5] or [list(attrs)[int(rng.integers(len(attrs)))]]
+    q = dict(p)
+    for k in vary:
+        v = p[k]
+        if k == "L":
+            q[k] = v * 0.5 + 0.21
+        elif k == "freq":
+            q[k] = v if v != 0.0 else 1.3e9
+        else:
+            q[k] = v * 0.6 + {"k1": 0.37, "k": 0.21, "angle": 2e-3, "tilt": 0.05, "V": 1.1e5, "phase": 3.0, "e1": 0.01, "e2": -0.02,
+                              "fint": 0.1, "fintx": 0.2}.get(k, 0.1)
+    el = _build(q, dtype, name, extra)
+    P = torch.zeros(3, 7, dtype=dtype)
+    P[:, :6] = torch.tensor(rng.normal(size=(3, 6)) * 1e-4, dtype=dtype)
+    P[:, 6] = 1.0
+    mu = P.mean(dim=0)
+    cov = torch.zeros(7, 7, dtype=dtype)
+    cov[:6, :6] = torch.cov(P[:, :6].T)
+    for e in MENU_E:
+        En = torch.tensor(e, dtype=dtype)
+        for use in (lambda: el.track(cheetah.ParticleBeam(P, En, dtype=dtype)),
+                    lambda: el.track(cheetah.ParameterBeam(mu, cov, En, dtype=dtype)),
+                    lambda: el.transfer_map(En)):
+            try:
+                use()
+            except Exception:  # noqa: BLE001
+                pass
+    try:
+        el.split(torch.tensor(0.13, dtype=dtype))
+        el.clone()
+        _ = el.is_skippable, getattr(el, "is_active", None)
+    except Exception:  # noqa: BLE001
+        pass
+    for k in vary:
+        setattr(el, attrs[k], torch.tensor(p[k], dtype=dtype))
+    return el
+
+
 def build(p: dict, dtype=F64, name: Optional[str] = None, **extra):
-    """The real Cheetah element for a parameter record."""
+    """The real Cheetah element for a parameter record (possibly one that was used before, see WARM)."""
+    if WARM is not None and p.get("cls") in WARM_ATTRS and WARM.random() < WARM_P:
+        try:
+            el = _warm_build(p, dtype, name, extra)
+        except Exception:  # noqa: BLE001
+            el = None
+        if el is not None:
+            WARM_COUNT["warm"] += 1
+            return el
+        WARM_COUNT["fallback"] += 1
+    else:
+        WARM_COUNT["fresh"] += 1
+    return _build(p, dtype, name, extra)
+
+
+def _build(p: dict, dtype=F64, name: Optional[str] = None, extra=None):
+    """The real Cheetah element for a parameter record, freshly constructed."""
+    extra = dict(extra or {})
     c = p["cls"]
     kw = dict(dtype=dtype)
     if name is not None:
